@@ -174,6 +174,8 @@ pub fn attr_menu() -> Vec<(&'static str, &'static str, Vec<Part>)> {
         ("attr-x-sq", "x", t("it's")),
         ("attr-x-dq", "x", t("say \"hi\"")),
         ("attr-x-gt", "x", t("a>b")),
+        // white space that is not XML white space stays what it is (only #x20, #x9, #xD, #xA are normalized)
+        ("attr-x-nbsp", "x", t("10\u{a0}km\u{3000}\u{2028}z")),
         // quote characters in one text piece, a reference, then a text piece without them (and the
         // other way round): the delimiter must be chosen for the value as a whole
         ("attr-x-dq-ref-plain", "x", vec![Part::Text("\"x\"".into()), Part::EntRef("amp".into()), Part::Text("y".into())]),
@@ -273,6 +275,17 @@ pub fn doc_menu(root_name: &str) -> Vec<LDeco> {
     push(
         "decl-attlist-other-element",
         Deco::Decl(attlist("zz", "d", "CDATA", ADefault::Value { fixed: false, value: t("v") })),
+    );
+    push(
+        "decl-attlist-two-defaults",
+        Deco::Decl(ADecl::AttList {
+            elem: root_name.to_string(),
+            defs: vec![
+                AAttDef { name: "d".into(), ty: "CDATA".into(), default: ADefault::Value { fixed: false, value: t("1") } },
+                AAttDef { name: "d2".into(), ty: "CDATA".into(), default: ADefault::Value { fixed: true, value: t("2") } },
+                AAttDef { name: "d3".into(), ty: "(x|y)".into(), default: ADefault::Value { fixed: false, value: t("y") } },
+            ],
+        }),
     );
     push(
         "decl-attlist-two-defs",
